@@ -384,6 +384,7 @@ func (e *Engine) runPath(fn *ssa.Function, prefix []uint64, base Options) {
 	e.dirs = nil
 	e.files = nil
 	e.dirOff = nil
+	e.md5Acc = nil
 	e.gomaxprocs = nil
 	e.tableLoop = nil
 	e.absKernel = nil
